@@ -131,7 +131,7 @@ def runAdapterSpec (name : String) (b : List Int) (args : List Int) : Res (List 
 def trStep (kd ke mode : Int) (s : List Int) : StepOut Int :=
   let c := s.headD 0
   let isErr := c == ke
-  { result := (c + 1) :: (s.drop 1).map (fun x => 3 * x + c),
+  { result := (c + 1) :: (s.drop 1).map (fun x => (3 * x + c) % 1009),
     isDone := decide (c + 1 ≥ kd) || (mode == 1 && isErr),
     err := if isErr then some c.toNat else none }
 
